@@ -5,7 +5,7 @@
    The oracle (Oracles/CoreC10.v) evaluates the same relation `documented` on the observed state logs and
    UpdatedApplication streams of the implementation. *)
 From Coq Require Import List NArith Bool.
-From YK Require Import Core.Obs Generated.AppFsm Core.AppLife Core.AppLifeProofs.
+From YK Require Import Base.Res Core.Obs Generated.AppFsm Core.AppLife Core.AppLifeProofs Core.AppEvents Core.AppEventsProofs.
 Import ListNotations.
 Open Scope N_scope.
 
@@ -43,3 +43,33 @@ Theorem c10_terminal_only_expires : forall s e,
   is_terminal s = true -> let d := fst (handle_event s e) in d = s \/ (d = ST_Expired /\ s <> ST_Expired).
 Proof. exact terminal_only_expires. Qed.
 Print Assumptions c10_terminal_only_expires.
+
+(* 5. Release path (removeAllocation for one key: removeAllocationInternal, ReplaceAllocation + addAllocationInternal,
+   removeAsksInternal; model Core/AppEvents.v, compared with the implementation after every single-key release,
+   kind 1091): whatever it does to the state is a sequence of documented moves. *)
+Theorem c10_release_documented : forall r key ty, dstar (rs_state r) (rs_state (release_key r key ty)).
+Proof. exact release_documented. Qed.
+Print Assumptions c10_release_documented.
+
+(* 6. "An application with live real allocations is never Completed" - completed_clean.
+   Refuted by the faithful model with a placeholder swap in flight (recorded finding C10-completed-live-alloc, replayed
+   on the real code by corpus/core_c10.json case 0): Completing, completing timer cleared, the shim confirms the
+   placeholder -> Completed, and the real allocation is added afterwards. *)
+Theorem c10_completed_clean_refuted :
+  let r := release_key w13 7 TT_PlaceholderReplaced in
+  rs_state w13 = ST_Completing /\ rs_state r = ST_Completed /\ existsb (fun x => negb (oa_ph x)) (rs_allocs r) = true /\
+  zero (rs_allocated r) = false.
+Proof. exact completed_clean_refuted. Qed.
+Print Assumptions c10_completed_clean_refuted.
+
+(* Proved part (completed_clean_partial): without a swap in flight a release that takes the application to Completed
+   leaves no real allocation booked, given the ledger invariant of the Completing state. Missing for the full clause:
+   the other writers of the state and the link ledger <-> allocation list (see Core/AppEventsProofs.v). *)
+Theorem c10_completed_clean_partial : forall r key ty,
+  (rs_state r = ST_Completing -> zero (rs_allocated r) = true) ->
+  (forall x, find_alloc (rs_allocs r) key = Some x -> (ty =? TT_PlaceholderReplaced) && negb (oa_release x =? 0) = false) ->
+  rs_state r <> ST_Completed ->
+  rs_state (release_key r key ty) = ST_Completed ->
+  zero (rs_allocated (release_key r key ty)) = true.
+Proof. exact completed_clean_partial. Qed.
+Print Assumptions c10_completed_clean_partial.
